@@ -457,9 +457,13 @@ def gen_obspy(rng, fmt, err=None):
         lim = 2 ** 27
     pre = pick(rng, PREFIXES)
     perm = pick(rng, PERMS)
-    names = [pre + x for x in perm]
+    pres = [pre, pre, pre]
+    if err is None and fmt != "gcf" and pre != "" and rng.random() < 0.25:
+        # instruments mixing sensor bands (e.g. a short-period vertical EHZ with broadband HHN/HHE): the component is the LAST letter
+        pres = [pick(rng, [p for p in PREFIXES if p]) for _ in range(3)]
+    names = [q + x for q, x in zip(pres, perm)]
     c = dict(kind="obspy", fmt=fmt, dtype=dtype, lim=lim, dseed=int(rng.integers(0, 2 ** 31)), deg=gen_deg(rng),
-             io=pick(rng, ["path", "path", "path", "pathlib", "memory"]), wrap=bool(rng.random() < 0.3), err=err, perm=perm, prefix=pre)
+             io=pick(rng, ["path", "path", "path", "pathlib", "memory"]), wrap=bool(rng.random() < 0.3), err=err, perm=perm, prefix=pre, prefixes=pres)
     tr = [[nm, n, fs] for nm in names]
     if err == "dup":
         i, j = rng.permutation(3)[:2]
@@ -1230,8 +1234,8 @@ def run(ctx):
             for _ in range(n_valid if perm != "NEZ" else max(1, n_valid // 3)):
                 c = gen_obspy(rng, fmt)
                 c["perm"] = perm
-                for t, x in zip(c["traces"], perm):
-                    t[0] = c["prefix"] + x
+                for t, x, q in zip(c["traces"], perm, c.get("prefixes", [c["prefix"]] * 3)):
+                    t[0] = q + x
                 singles.append(c)
     for chan in itertools.permutations("VNE"):
         for _ in range(ctx.budget(20, 150)):
